@@ -193,7 +193,7 @@ def translate_snap(evs):
         return None, "family"
     if reset.get("burst") or reset.get("sched") in ("free",) or reset.get("spin"):
         return None, "uncontrolled"
-    out, cmds, held, began = [None], [], {}, set()
+    out, cmds, held, began, late = [None], [], {}, set(), []
     for e in evs[1:]:
         ev, c = e["ev"], e.get("c")
         if ev in ("x_settle", "end"):
@@ -207,7 +207,9 @@ def translate_snap(evs):
             ln = {"a": "File", "ok": bool(e["ok"]), "cfg": e["cfg"], "point": e["point"]}
             if e["point"] in ("snap_listed", "snap_created", "snap_written"):
                 held[(c, e["point"])] = ln          # recorded just before the yield event of the same hook
-            else:
+            elif held:
+                late.append(ln)                     # a sample taken between a hook's observation and its yield event:
+            else:                                   # the step it saw is bound at the yield event, so it goes after it
                 out.append(ln)
         elif ev == "y_snap_begin":
             began.add(c)
@@ -218,6 +220,9 @@ def translate_snap(evs):
             ln = held.pop((c, ev[2:]), None)
             if ln:
                 out.append(ln)
+            if not held:
+                out += late
+                late = []
             if ev == "y_snap_written":
                 out.append({"a": "Release", "c": c})
         elif ev == "cmd_ret":
